@@ -1265,7 +1265,9 @@ impl Machine {
                         "JmpTable instruction requires non-empty jump_tables"
                     );
                     let table = &fn_proto.jump_tables[table_idx as usize];
-                    let idx = (val - table.min) as usize;
+                    // the scrutinee may be any i64 (a float cast saturates to i64::MIN / MAX): a difference that does
+                    // not fit wraps to an index beyond the table and selects the default arm, never an overflow panic
+                    let idx = val.wrapping_sub(table.min) as usize;
                     // Last element of offsets is the default for out-of-range values
                     let default_idx = table.offsets.len() - 1;
                     increment = table
